@@ -19,8 +19,8 @@ def setup():
 # layout: segment id -> (contig, rank).  Offsets/lengths are symbolic.
 SEGS = {
     "s0": ("chr1", 0), "s1": ("chr1", 0), "s2": ("chr1", 0),
-    "a0": ("hapA", 1), "a1": ("hapA", 1),
-    "b0": ("hapB", 2),
+    "a0": ("hap-A.1", 1), "a1": ("hap-A.1", 1),
+    "b0": ("hap_B#2", 2),
     "c0": ("chr2", 0), "c1": ("chr2", 0),
 }
 ORDER = ["s0", "s1", "s2", "a0", "a1", "b0", "c0", "c1"]
@@ -37,8 +37,8 @@ def layout(L):
     l0, l1, l2, ha, a0, g1, a1, hb, b0, c0, c1 = L
     return {
         "s0": ("chr1", 0, l0, 0), "s1": ("chr1", l0, l1, 0), "s2": ("chr1", l0 + l1, l2, 0),
-        "a0": ("hapA", ha, a0, 1), "a1": ("hapA", ha + a0 + g1, a1, 1),
-        "b0": ("hapB", hb, b0, 2),
+        "a0": ("hap-A.1", ha, a0, 1), "a1": ("hap-A.1", ha + a0 + g1, a1, 1),
+        "b0": ("hap_B#2", hb, b0, 2),
         "c0": ("chr2", 0, c0, 0), "c1": ("chr2", c0, c1, 0),
     }
 
